@@ -256,8 +256,14 @@ SymAddrs(objs, name) ==
   IN { AddA(s.value, objs[k].base) : s \in Exports(objs[k].d, name) }
 
 \* the union image: objects in load order, later objects over earlier ones
+\* Image, evaluated through the integer-coordinate form when its side condition holds
+\* (MC_Elf: ImageQ = Image)
+ImageQ(d, base) ==
+  LET O == MinStart(d, base) IN
+  IF RelOK(d, base, O) THEN LiftCells(ImageRel(d, base, O), O) ELSE Image(d, base)
+
 LinkedImage(objs) ==
-  LET imgs == TLCEval([k \in 1..Len(objs) |-> Image(objs[k].d, objs[k].base)])
+  LET imgs == TLCEval([k \in 1..Len(objs) |-> ImageQ(objs[k].d, objs[k].base)])
       doms == TLCEval([k \in 1..Len(objs) |-> CellAddrs(imgs[k])])
   IN UNION { { c \in imgs[k] : \A j \in (k+1)..Len(objs) : c[1] \notin doms[j] } : k \in 1..Len(objs) }
 
